@@ -110,11 +110,21 @@ SClipCands(c, S)  == {SClipKeep(c, S) \cup T : T \in SUBSET SClipTies(c, S)}
 \* "the empty set is the result" is accepted too); nothing discarded -> S; else the survivors
 SClipSucc(c, S)   == UNION {IF T = {} THEN {S, {}} ELSE {T} : T \in SClipCands(c, S)}
 SClipStops(c, S)  == S = {} \/ \E T \in SClipCands(c, S) : T = {} \/ T = S
+\* the same two relations as predicates (no enumeration of SUBSET Ties: a trace with 24 tied points
+\* must not cost 2^24 evaluations); StatsMC!ClipPredsAgree checks them against the set forms
+SClipInCands(c, S, T) == SClipKeep(c, S) \subseteq T /\ T \subseteq (SClipKeep(c, S) \cup SClipTies(c, S))
+SClipInSucc(c, S, U)  == (U # {} /\ SClipInCands(c, S, U)) \/ ((U = S \/ U = {}) /\ SClipKeep(c, S) = {})
+SClipStopsP(c, S)     == S = {} \/ SClipKeep(c, S) = {} \/ SClipKeep(c, S) \cup SClipTies(c, S) = S
 \* every subset the procedure may report after at most k iterations
 RECURSIVE SClipAfter(_, _, _)
+\* (constant data: every point is a tie in S and in each of its subsets, so the general recursion
+\* below yields exactly SUBSET S - written out, because enumerating it costs 3^|S| evaluations)
+SClipConstant(c, S) == \A i, j \in S : c.x[i] = c.x[j]
 SClipAfter(c, S, k) == IF k = 0 \/ S = {} THEN {S}
+                       ELSE IF SClipConstant(c, S) THEN SUBSET S
                        ELSE UNION {IF T = S THEN {S} ELSE SClipAfter(c, T, k - 1) : T \in SClipSucc(c, S)}
 SClipFinals(c) == SClipAfter(c, DOMAIN c.x, c.niter)
+SClipEnumMax == 8      \* SClipFinals is enumerated up to this many data only (cost up to 3^n)
 
 \* statistics of a reported subset F (# {}): the error of the weighted variant is
 \* not named by the statement - either documented convention is accepted
@@ -192,13 +202,15 @@ SClipFailing(c, o) ==
     ELSE LET St(k) == VRange(o.steps[k])
              F     == St(c.niter + 1)
          IN (IF St(1) = DOMAIN c.x THEN {} ELSE {"niter0_not_all"}) \cup
-            (IF \A k \in 1..c.niter : St(k + 1) = St(k) \/ St(k + 1) \in SClipSucc(c, St(k))
+            (IF \A k \in 1..c.niter : St(k + 1) = St(k) \/ SClipInSucc(c, St(k), St(k + 1))
              THEN {} ELSE {"clip_step"}) \cup
             (IF \A k \in 1..c.niter : (St(k + 1) = St(k) /\ k < c.niter) => St(k + 2) = St(k)
              THEN {} ELSE {"resumed_after_stop"}) \cup
-            (IF \A k \in 1..c.niter : St(k + 1) = St(k) => SClipStops(c, St(k))
+            (IF \A k \in 1..c.niter : St(k + 1) = St(k) => SClipStopsP(c, St(k))
              THEN {} ELSE {"stopped_early"}) \cup
-            (IF F \in SClipFinals(c) THEN {} ELSE {"subset"}) \cup
+            \* the reported subset is one the procedure may end on: enumerated for small inputs; for larger
+            \* ones it follows from the four chain clauses above (F is the last link of the observed chain)
+            (IF Len(c.x) > SClipEnumMax \/ F \in SClipFinals(c) THEN {} ELSE {"subset"}) \cup
             (IF F = {} THEN {}
              ELSE (IF SObsEq(o.mean, SClipMean(c, F)) THEN {} ELSE {"mean_of_subset"}) \cup
                   (IF SObsEq(o.var, SClipVar(c, F)) THEN {} ELSE {"std_of_subset"}) \cup
